@@ -1388,9 +1388,17 @@ func runCase17(c *Case17) case17Result {
 					// must not constrain the next candidate.
 					pv := map[string]bool{}
 					(&T17{K: "tuple", A: f.A[:np]}).vars(pv)
+					// not a variable that also stands in map-key position: bound to the whole first
+					// argument it would make the library build a map type with a composite key,
+					// which panics inside the substitution instead of failing the candidate and
+					// ends the whole overload resolution (DESIGN.md section 8 / observation D13)
+					kv := map[string]bool{}
+					keyVars(&T17{K: "tuple", A: f.A[:np]}, kv)
 					var names []string
 					for v := range pv {
-						names = append(names, v)
+						if !kv[v] {
+							names = append(names, v)
+						}
 					}
 					sort.Strings(names)
 					if len(names) > 0 {
